@@ -128,7 +128,7 @@ class Normaliser:
 
     def monos(self, e, env) -> list[Mono] | None:
         """All monomials the expression may denote (one per branch of conditional sub-expressions)."""
-        e = strip_wrappers(e)
+        e = self.strip(e)
         if isinstance(e, ast.Constant) and isinstance(e.value, (int, float)) and not isinstance(e.value, bool):
             return [const(e.value)]
         if isinstance(e, ast.Name):
@@ -184,14 +184,17 @@ class Normaliser:
                 if not method_norm and (len(e.args) > 1 or e.keywords):
                     return None
                 # S.norm() is the method spelling of the 2-norm of S
-                cur = strip_wrappers(e.func.value if method_norm else e.args[0])
+                cur = self.strip(e.func.value if method_norm else e.args[0])
                 for _ in range(4):
                     if isinstance(cur, ast.Name) and cur.id in self.single_def and cur.id not in self.f.params():
-                        cur = strip_wrappers(self.single_def[cur.id])
+                        cur = self.strip(self.single_def[cur.id])
                     else:
                         break
                 return [atom("NORM(" + norm(cur) + ")")]
             if r in ("builtins.float", "builtins.abs") and len(e.args) == 1:
+                return self.monos(e.args[0], env)
+            if isinstance(e.func, ast.Name) and len(e.args) == 1 and not e.keywords and self._is_conversion(self.single_def.get(e.func.id)):
+                # a local `to_numpy = (lambda t: t.cpu().numpy()) if ... else (lambda t: t.numpy())`: a change of container, the same number
                 return self.monos(e.args[0], env)
             return None
         if isinstance(e, ast.IfExp):
@@ -206,6 +209,27 @@ class Normaliser:
                 return None
             return a + b
         return None
+
+    def strip(self, e):
+        """e without value-preserving wrappers: conversion methods and local conversion lambdas"""
+        while True:
+            e = strip_wrappers(e)
+            if isinstance(e, ast.Call) and isinstance(e.func, ast.Name) and len(e.args) == 1 and not e.keywords \
+                    and self._is_conversion(self.single_def.get(e.func.id)):
+                e = e.args[0]
+                continue
+            return e
+
+    def _is_conversion(self, v):
+        """a lambda (or a choice between lambdas) whose body is its own parameter under container conversions (.cpu(), .numpy(), .item() ...)"""
+        if v is None:
+            return False
+        if isinstance(v, ast.IfExp):
+            return self._is_conversion(v.body) and self._is_conversion(v.orelse)
+        if isinstance(v, ast.Lambda) and len(v.args.args) == 1 and not v.args.vararg and not v.args.kwonlyargs:
+            b = strip_wrappers(v.body)
+            return isinstance(b, ast.Name) and b.id == v.args.args[0].arg
+        return False
 
     def _no_bond_branch(self, test):
         """'body' / 'orelse' when that branch of `X if test else Y` is reached only for trains without bonds (order <= 1): the test compares an
@@ -401,6 +425,9 @@ def cmp_total(model: Model, f: Func):
     sel_fn = None
     result_name = None
     for n in ast.walk(fn):
+        if isinstance(n, ast.Return) and isinstance(n.value, ast.IfExp):
+            # `return A if c else B` decides like `R = A if c else B; return R`
+            n = ast.copy_location(ast.Assign(targets=[ast.Name(id="<returned>", ctx=ast.Store())], value=n.value), n)
         if isinstance(n, ast.Assign) and len(n.targets) == 1 and isinstance(n.targets[0], ast.Name):
             v = n.value
             # tail energies: cumsum(<...>[::-1] ...)[::-1]
